@@ -653,8 +653,10 @@ SHORT_KINDS_THOROUGH = [
     ("CONNECT", _rep(0, 3, b"ab"), b"\x05\x00\x00\x01"),                # 9 + 4
     ("CONNECT", _rep(0, 0x07, b"\1\2\3\4"), b"abc"),                    # unknown address type
     ("CONNECT", _rep(0, 1, ADDR[1], ver=4), b"abc"),
-    ("RESOLVE", _rep(0, 3, b"example.org"), b""),                       # 18 -> bounded below
+    ("RESOLVE", _rep(0, 3, b"example.org"), b""),                       # 18 > 15: two-cut enumeration below
     ("RESOLVE_PTR", _rep(0, 3, b"ptr.example"), b""),
+    ("RESOLVE", _rep(0, 3, b"ex.org"), b""),                            # 13
+    ("RESOLVE_PTR", _rep(0, 3, b"p.q.example"[:8]), b""),               # 15
     ("RESOLVE_PTR", _rep(4, 1, b"\0\0\0\0", 0), b""),
     ("RESOLVE", _rep(0xff, 1, b"\0\0\0\0", 0), b""),
 ]
@@ -718,7 +720,7 @@ MANIFEST = {
 
 
 def run(ctx):
-    ctx.search("session", cases(), quick=2000, thorough=12000)
+    ctx.search("session", cases(), quick=2000, thorough=8000)
     if ctx.quick():
         ctx.enumerate("session", method_reply_cases(full=False), name="method-replies-x-hangups(sample)",
                       exhaustive=False)
@@ -732,8 +734,8 @@ def run(ctx):
     else:
         ctx.enumerate("session", method_reply_cases(), name="method-replies-x-hangups")
         ctx.enumerate("session", all_codes_cases(), name="all-codes-x-atyp-x-request-type")
-        ctx.enumerate("session", all_segmentations_all_hangups(SHORT_KINDS_QUICK + SHORT_KINDS_THOROUGH, 18),
-                      name="all-segmentations-x-all-hangups(n<=18)")
+        ctx.enumerate("session", all_segmentations_all_hangups(SHORT_KINDS_QUICK + SHORT_KINDS_THOROUGH, 15),
+                      name="all-segmentations-x-all-hangups(n<=15)")
         ctx.enumerate("session", bounded_segmentations_all_hangups(SHORT_KINDS_THOROUGH[8:10] + LONG_KINDS[:4], 2),
                       name="two-cut-x-hangups(long)")
         ctx.enumerate("session", bounded_segmentations_all_hangups(LONG_KINDS[4:], 1, stride=5),
